@@ -11,7 +11,7 @@ CLAIMS = {
             "Trusts the harness's own codec (internal/resp, written from the RESP2 specification, self-tested) and Go's strconv for the float oracle.",
             "DESIGN.md 4/C01"),
     "C02": ("property-based testing (rapid) over value sequences x read partitions (all 2-way splits, 1-byte reads, biased k-way), oracle = exact values + exact consumed offsets via a counting chunk reader; native fuzzing of (stream, partition)",
-            "Generated-input search over (stream, chunking) pairs with an exact oracle: the i-th value and the number of bytes consumed after it are known from the independent encoder. Every 2-way split of short streams is enumerated, longer streams are split at every length-prefix/CR-LF position; exploration because streams and partitions are unbounded.",
+            "Generated-input search over (stream, chunking) pairs with an exact oracle: the i-th value and the number of bytes consumed after it are known from the independent encoder. Every 2-way split of short streams is enumerated, longer streams are split at every length-prefix/CR-LF position; a second generator sends pipelined ECHO requests with payloads around 4 KiB/8 KiB/64 KiB through the server's own connection path in generated chunkings and requires every reply to be the payload sent. Exploration because streams and partitions are unbounded.",
             "The chunk reader models a TCP connection (one chunk per Read, never (0,nil), (0,EOF) only at the end); (n>0,EOF) readers are excluded and the exclusion is stated in the evidence rule. Trusts internal/resp.",
             "DESIGN.md 4/C02"),
     "C06": ("mutation-based and grammar-aware fuzzing (rapid-driven structure-aware mutators + native coverage-guided go test -fuzz), oracle = no panic / no absent element / read-count bound, allocation bombs judged by process survival in a child under RLIMIT_AS",
@@ -23,11 +23,11 @@ CLAIMS = {
             "The grammar (internal/cmdspec) was written from the Redis command reference and redis/handler.go, not from the executors; combinations whose expected handler arguments are not defined by the interface (ZRANGE BYSCORE REV, KEEPTTL+EX, ZADD NX+GT) are not generated. EXPIRE's instant is checked as an interval bracketed by two clock readings of the harness.",
             "DESIGN.md 4/C05, Appendix A"),
     "C03": ("property-based testing (rapid) over request pipelines x chunkings x handler scripts on a scripted in-memory connection; oracle = strict frame decoder + reply-before-blocking invariant at every transport read + watchdog",
-            "Generated pipelines (every registered command with valid, invalid, missing, surplus and option arguments, unknown names, QUIT anywhere) are delivered in generated chunkings through the real connection loop; the harness owns every Read, so at each moment the server asks for undelivered bytes it checks that every fully delivered request has been answered, then that the output is exactly one frame per request in order. Exploration: pipelines and chunkings are unbounded.",
+            "Generated pipelines (every registered command with valid, invalid, missing, surplus and option arguments, unknown names, QUIT anywhere) are delivered in generated chunkings through the real connection loop; the harness owns every Read, so at each moment the server asks for undelivered bytes it checks that every fully delivered request has been answered, then that the output is exactly one frame per request in order, and finally that a following connection to the same server is still served. Handler scripts include errors and results that are neither message nor error; some requests carry arguments of 4 KiB..128 KiB; a child-process pass sends extreme count-like arguments to the example server, each of which must be answered within 10 s. Exploration: pipelines and chunkings are unbounded.",
             "Liveness is approximated: a stall verdict needs the loop not to return within 30s AND two goroutine dumps showing the connection goroutine busy outside the transport. Count-like arguments are bounded to 10^6 in-process.",
             "DESIGN.md 4/C03"),
     "C04": ("property-based testing (rapid) + native fuzzing: hostile client streams x scripted handler results, oracle = independent strict RESP2 decoder over the whole output",
-            "Client streams of every RESP type with CR/LF and forged frames in every client-controlled position, and handler results of every shape (arbitrary trees, nil, errors with arbitrary text), against both a scripted handler and the bundled example store; everything written must decode into exactly one canonical frame per request. Exploration over an unbounded input space.",
+            "Client streams of every RESP type with CR/LF and forged frames in every client-controlled position, and handler results of every shape (arbitrary trees, nil, errors with arbitrary text), against both a scripted handler and the bundled example store; everything written must decode into exactly one canonical frame per request; scripted results are applied to every handler call, including those made on behalf of composed commands. Exploration over an unbounded input space.",
             "Integer replies are generated with valid decimal payloads only (a handler building ':abc' by hand is outside 'valid RESP value'); QUIT is not generated here (C03 covers it).",
             "DESIGN.md 4/C04"),
     "C10": ("complete enumeration of a table of ill-formed request shapes derived from a positional command schema + random variation (rapid); oracle = error reply, zero handler calls attributed to the request, probe request answered normally",
@@ -35,11 +35,11 @@ CLAIMS = {
             "Handler calls are attributed to requests by the number of complete reply frames on the connection at call time. Surplus arguments and negative counts are not in the property's list and are not asserted.",
             "DESIGN.md 4/C10"),
     "C11": ("exhaustive crash-point enumeration per generated pipeline (every byte offset x half/full close), differential oracle against the same server fed only the complete requests",
-            "For each generated pipeline of well-formed requests the stream is cut at every byte offset, with half-close and full close; handler calls and replies must equal those produced by the completely delivered requests alone, and the loop must return, close the connection and leave the registry. The cut points of a pipeline are enumerated completely; pipelines are sampled.",
+            "For each generated pipeline of well-formed requests the stream is cut at every byte offset, with half-close, full close after the last byte, and a peer that is already gone (every reply write fails); handler calls and replies must equal those produced by the completely delivered requests alone, and the loop must return, close the connection and leave the registry. The cut points of a pipeline are enumerated completely; pipelines are sampled.",
             "VerifServeConn is synchronous, so its return is the end of the connection goroutine's work. Order of handler calls inside one request (Go map iteration in MSET/HMSET) is not compared.",
             "DESIGN.md 4/C11"),
     "C20": ("property-based testing (rapid) over pipelines x cut points x auth state with a recording tracer double; oracle = well-nestedness invariants over a sequence-numbered event log",
-            "The C03/C10 pipelines, optionally cut anywhere and optionally under a required password, are served with a tracer double whose span contexts are go-tracing's own stack implementation; every span must be finished exactly once, nested in its parent, roots and siblings must not overlap, and every write/handler call must lie in exactly one root with at most one reply per root.",
+            "The C03/C10 pipelines, optionally cut anywhere, optionally with reply writes failing after N bytes and optionally under a required password, are served with a tracer double whose span contexts are go-tracing's own stack implementation; every span must be finished exactly once, nested in its parent, roots and siblings must not overlap, and every write/handler call must lie in exactly one root with at most one reply per root.",
             "The tracer double stands for any tracer built on go-tracing's common span-context stack (as the bundled OpenTelemetry/OpenTracing adapters are).",
             "DESIGN.md 4/C20"),
     "C12": ("model-based property testing (rapid) + exhaustive index tables: command programs against a reference store used as handler, oracle = executable Redis model (replies and final store state)",
@@ -63,24 +63,24 @@ CLAIMS = {
             "Request-granularity interleavings; true parallelism is exercised by C14/C16. The thorough tier additionally builds with -race.",
             "DESIGN.md 4/C13"),
     "C07": ("fault-injecting property-based testing (rapid) with an offender/witness pair on scripted connections + a child-process tier that judges process survival; oracle = no escaped panic, no stall, exact witness replies, process alive and accepting",
-            "Generated offender streams (boundary arguments for every numeric position, grammar instances of every command, empty/null/nested/non-array frames, nesting around the depth limit, mutated frames, disconnects) are interleaved request by request with a witness connection on the same server, against the example store and against a scripted handler with nil/wrong-shaped results; a fixed list of ~50 dangerous requests (allocation bombs, extreme counts, 8M-deep nesting, a concurrent same-hash burst) runs against the example server as a separate process under RLIMIT_AS whose wait status is the verdict.",
+            "Generated offender streams (boundary arguments for every numeric position incl. empty score bounds, grammar instances of every command, empty/null/nested/non-array frames, nesting around the depth limit, mutated frames, disconnects, an offender that stops reading so that the reply write blocks, an offender whose reply writes fail) are interleaved request by request with a witness connection on the same server, against the example store and against a scripted handler with nil/wrong-shaped results; a fixed list of ~50 dangerous requests (allocation bombs, extreme counts, 8M-deep nesting, a concurrent same-hash burst) runs against the example server as a separate process under RLIMIT_AS whose wait status is the verdict.",
             "A panic recovered in-process stands for a process abort (there is no recover in the server's loops). The concurrent burst depends on the scheduler. Whether a value comes back as status or bulk is not judged here (C04/C18).",
             "DESIGN.md 4/C07"),
     "C16": ("history-based property testing: generated concurrent workloads (harness-forced interleavings at handler-primitive granularity + uncontrolled goroutines), oracle = complete linearizability search (porcupine v1.3.0) against the sequential Redis model",
-            "Controlled mode parks one client at each primitive handler call of its command (before Get, between Get and Set, ...) while another client's command is started, exhaustively for all ordered pairs of the nine operation kinds, plus random multi-round sequences; uncontrolled mode runs 2..8 clients on real goroutines against the reference store and the example store. Every recorded history (logical-clock invoke/return stamps) is checked for linearizability.",
+            "Controlled mode uses a handler double that is not synchronized itself (its conditional Set reads and writes in two steps) and parks one client at each gate of its command (before Get, between Get and Set, inside SETNX/GETSET, ...) while another client's command is started, exhaustively for all ordered pairs of the nine operation kinds, plus random multi-round sequences; uncontrolled mode runs 2..8 clients on real goroutines against the reference store and the example store, including hammer plans in which all clients issue the same read-modify-write command on one key. Every recorded history (logical-clock invoke/return stamps) is checked for linearizability.",
             "The recorded history is the reproducible unit (replay re-checks it); whether a forced interleaving materialises depends on a 3 ms scheduling aid that is never used as a verdict. Uncontrolled mode depends on the scheduler.",
             "DESIGN.md 4/C16"),
     "C15": ("schedule-enumerating property testing: lifecycle sequences x harness-owned schedules at instrumented points (turnstile), exhaustive for short sequences, rapid-drawn beyond; oracle = dial+PING after Start, bind probe / client EOF / registry / goroutine profile after Stop",
-            "Lifecycle call sequences run against real loopback listeners while a turnstile installed at the verif schedule points parks accept loops at their exit, a connection between Accept and registration, connection goroutines before serving, Stop between its phases and Start after opening the listeners; all hold combinations are enumerated for sequences of up to three calls, longer sequences with client churn are drawn from rapid. The controller is event-driven: it waits for the arrivals an action causally guarantees, not for sleeps.",
-            "Port release, client-side closure and registry emptiness are judged at Stop's return with parked goroutines still parked; 'no server goroutine remains' after a 5 s settle budget (a goroutine told to end but not yet scheduled is not a leak). If Stop does not wait for parked loop exits they are released after the next Start (60 ms probe - a scheduling aid, never a verdict).",
+            "Lifecycle call sequences run against real loopback listeners while a turnstile installed at the verif schedule points parks accept loops at their accept-error exit or at the very end of their goroutine, a connection between Accept and registration, connection goroutines before serving (released after the call, after the next Start, after the next Start once new clients have connected, or at the end), Stop between its phases and Start after opening the listeners; all hold combinations are enumerated for sequences of up to three calls, longer sequences with client churn are drawn from rapid. The controller is event-driven: it waits for the arrivals an action causally guarantees, not for sleeps.",
+            "Port release, client-side closure and registry emptiness are judged at Stop's return with parked goroutines still parked; 'no server goroutine remains' after a 15 s settle budget (a goroutine told to end but not yet scheduled is not a leak). If Stop does not wait for parked loop exits they are released after the next Start (60 ms probe - a scheduling aid, never a verdict).",
             "DESIGN.md 4/C15"),
     "C09": ("complete enumeration of a finite configuration x credential x fault x order product on real loopback TCP/TLS with run-time generated certificates (+ rapid-drawn bursts in thorough); oracle = handler calls per client identity, disconnect of rejected clients, survivors still served",
             "All 192 combinations of server configuration, client credential, handshake fault and order are run against a started server; handler calls are attributed to clients by unique keys and may only stem from clients whose chain verifies and whose leaf carries the configured name (after AUTH where a password is set); after each faulty client, and while a staller is still connected, a valid TLS client and a plain client must be served.",
             "Key material comes from crypto/rand (affects no decision). The stall verdict needs a 5 s handshake timeout of the valid client AND a goroutine dump showing the TLS accept loop inside Handshake. On the plain port with rule+password only 'a reply frame came back' is asserted.",
             "DESIGN.md 4/C09"),
     "C19": ("fault-sequence property testing (rapid): deterministic endings on scripted connections + churn plans on real loopback TCP/TLS; oracle = per-connection closure/registry checks and resource counters (server goroutines, registry size, /proc/self/fd) returning to baseline",
-            "Every ending mode the property lists is injected - exact cut offsets, write failures and rejected certificates on scripted connections; FIN, RST, QUIT, malformed frames, peers that stop reading, failed TLS handshakes, rejected certificates and Server.Stop on real sockets with 1..32 connections in flight - and after each plan the goroutine, registry and descriptor counts must settle back to the values sampled before it.",
-            "The 5 s settle budget bounds the wait for in-flight kernel events; what is judged is the final state, with the leaked goroutines' stacks / descriptor targets attached.",
+            "Every ending mode the property lists is injected - exact cut offsets, write failures and rejected certificates on scripted connections; FIN, RST, QUIT, malformed frames, clients that keep their end open after the server ended the connection, peers that stop reading (and stay while the others must be released), failed TLS handshakes, rejected certificates, clients leaving exactly when Stop sweeps, TLS handshakes still pending at Stop, and Server.Stop on real sockets with 1..32 connections in flight - and after each plan the goroutine, registry and descriptor counts must settle back to the values sampled before it.",
+            "The 15 s settle budget bounds the wait for in-flight kernel events; what is judged is the final state, with the leaked goroutines' stacks / descriptor targets attached.",
             "DESIGN.md 4/C19"),
     "C14": ("randomized concurrent workload generation (rapid) executed under the Go race detector in a child process; oracle = race reports whose racing access is in the framework, reduced to unordered access-site pairs",
             "Workload plans (2..32 clients over every command family with churn, CONFIG SET/GET on shared parameters, registry enumeration, Stop/Start/Restart, yields and delays, plain or TLS listeners) are drawn from rapid and executed against a started server in a -race build; every report with a framework access is a violation, as is a concurrent-map abort.",
